@@ -54,7 +54,7 @@ type sxDoc struct {
 	Values []sxValue `@@*`
 }
 
-var sexprParser = participle.MustBuild[sxDoc](
+var sexprParser = mustBuild[sxDoc](
 	participle.Unquote("String"),
 	participle.Union[sxValue](&sxNum{}, &sxSym{}, &sxStr{}, &sxList{}, &sxQuote{}, &sxPair{}),
 )
@@ -83,10 +83,13 @@ func init() {
 // SexprCalls builds a *fresh* parser for the sexpr grammar and returns calls on it: parsing a document, parsing with
 // a parser derived for the inner production sxList (ParserForProduction, created on first use), and String().
 func SexprCalls() (parse func(in string) (any, error), sub func(in string) (any, error), ebnf func() string) {
-	p := participle.MustBuild[sxDoc](
+	p, err := participle.Build[sxDoc](
 		participle.Unquote("String"),
 		participle.Union[sxValue](&sxNum{}, &sxSym{}, &sxStr{}, &sxList{}, &sxQuote{}, &sxPair{}),
 	)
+	if err != nil {
+		return nil, nil, nil // recorded in BuildFailures by the package-level parser of the same grammar
+	}
 	parse = func(in string) (any, error) {
 		v, err := p.ParseString("f", in)
 		if v == nil {
